@@ -8,6 +8,7 @@ package imports
 
 import (
 	"bufio"
+	"bytes"
 	"errors"
 	"io"
 	"unicode/utf8"
@@ -25,6 +26,8 @@ type importReader struct {
 func isIdent(c byte) bool {
 	return 'A' <= c && c <= 'Z' || 'a' <= c && c <= 'z' || '0' <= c && c <= '9' || c == '_' || c >= utf8.RuneSelf
 }
+
+var bom = []byte{0xef, 0xbb, 0xbf}
 
 var (
 	errSyntax = errors.New("syntax error")
@@ -214,6 +217,12 @@ func ReadComments(f io.Reader) ([]byte, error) {
 // and stops reading the input once the imports have completed.
 func ReadImports(f io.Reader, reportSyntaxError bool, imports *[]string) ([]byte, error) {
 	r := &importReader{b: bufio.NewReader(f)}
+
+	// Remove a leading UTF-8 byte-order mark: per the Go spec it may be
+	// ignored if it is the first Unicode code point in the source text.
+	if lead, err := r.b.Peek(len(bom)); err == nil && bytes.Equal(lead, bom) {
+		r.b.Discard(len(bom))
+	}
 
 	r.readKeyword("package")
 	r.readIdent()
